@@ -70,7 +70,18 @@ POOLS = {
     # an object column whose keys are EQUAL across exact types (1 == 1.0 == True == Decimal(1) == Fraction(1), 0 == 0.0 == -0.0):
     # key equality is Python's ==, the cells carried along keep their own type
     "numeq": [1, 1.0, True, "M:1", "Q:1", 0, 0.0, -0.0, "M:2.50", 2.5, "x", None],
+    # a datetime column that also holds raw dates (documented widening): date(2020,1,1) and datetime(2020,1,1,0,0) are
+    # DIFFERENT keys (Python ==/hash), as are two datetimes that differ only in microseconds / fold
+    "datemix": ["D:2020-01-01", "T:2020-01-01T00:00:00", "T:2020-01-01T00:00:00.000001", "D:2020-01-02", "T:2020-01-02T00:00:00", None],
 }
+
+# names a key column may carry (looked up by their exact spelling): blanks, a leading digit, upper case, non-ASCII, names of
+# Table/Vector attributes and methods, a trailing blank.  All of them are found by the exact-match pass of Table.__getitem__.
+FANCY_NAMES = ["Key 0", "k-0", "0k", "cols", "join", "name", "\u043a\u043b\u044e\u0447", "k0 ", "KEY", "_k", "k__1", "T", "shape", "a.b"]
+
+# expect arguments that are not strings at all (the wire carries the placeholder, the call gets the object)
+EXPECT_OBJECTS = {"<None>": None, "<0>": 0, "<1>": 1, "<True>": True, "<bytes>": b"one_to_one", "<tuple>": ("one_to_one",),
+                  "<list>": ["many_to_many"], "<float>": 1.0}
 
 
 # ------------------------------------------------------------------------------------------------
@@ -89,20 +100,37 @@ def _payload(side, c, n):
     return [pat[i % 3] for i in range(n)]
 
 
+def _wide_payload(side, c, n):
+    """extra payload columns of further kinds (bool, date, all-None, str with blanks, object-mixed, int with None)"""
+    pats = [[True, False, None], ["D:2021-03-04", "D:2021-03-05"], [None], ["", " ", "s"], [1, "1", None, 2.5], [None, 4, 5, 6],
+            [10 ** 12, -1], ["T:2020-01-01T00:00:00", None]]
+    pat = pats[(c + 3 * side) % len(pats)]
+    return [pat[(i + c) % len(pat)] for i in range(n)]
+
+
 def _side(spec, side):
     """-> (column list [(name, values)], on-argument description) for one side"""
     var = _variant(spec.get("v", 0))
+    x = spec.get("x") or {}
     keys = spec["lk" if side == 0 else "rk"]
     n = len(keys[0]) if keys else 0
     nk = len(keys)
     mode = var["mode"]
     if mode == 3:
         mode = 0 if side == 0 else 1
+    pm = (x.get("modes") or [None, None])[side]          # per-key argument forms (mixed lists): all key columns are stored
+    if pm:
+        mode = 0
     npl = var["lp" if side == 0 else "rp"]
-    if mode == 2 and npl == 0:
+    nocols = side in (x.get("nocols") or []) and n == 0 and mode == 2
+    if mode == 2 and npl == 0 and not nocols:
         npl = 1          # keys live outside the table: keep one stored column so that the table has rows
+    if nocols:
+        npl = 0          # ... unless the case asks for a table without any column (only possible without rows)
     naming = var["naming"]
-    kname = (lambda i: f"k{i}") if (side == 0 or naming != 1) else (lambda i: f"r{i}")
+    fancy = x.get("names") or {}
+    kbase = (lambda i: f"k{i}") if (side == 0 or naming != 1) else (lambda i: f"r{i}")
+    kname = lambda i: fancy.get(kbase(i), kbase(i))
     if naming == 0:
         pname = lambda c: f"{'x' if side == 0 else 'y'}{c}"
     elif naming == 1:
@@ -113,27 +141,100 @@ def _side(spec, side):
         pname = lambda c: "K0" if c == 0 else f"{'x' if side == 0 else 'y'}{c}"
     else:
         pname = lambda c: None if c == 0 else "k0"     # unnamed column / a later column repeating the key name
-    payload = [(pname(c), _payload(side, c, n)) for c in range(npl)]
-    keycols = [(kname(i), list(keys[i])) for i in range(nk)]
+    # layout: a list of items ("K", i) key column i / ("P", c) payload column c / ("W", c) extra payload column c
+    cp = (x.get("colperm") or [None, None])[side]      # storage order of the key columns (a permutation of range(nk))
+    stored = list(cp) if (cp and sorted(cp) == list(range(nk))) else list(range(nk))
+    kitems = [("K", i) for i in stored]
+    pitems = [("P", c) for c in range(npl)]
     if mode == 2:
-        cols = payload
+        items = pitems
     elif var["after"] and naming != 2:
-        cols = payload + keycols
+        items = pitems + kitems
     else:
-        cols = keycols + payload     # naming 2: the key column comes first, so the repeated name resolves to it
-    if mode == 0:
+        items = kitems + pitems     # naming 2: the key column comes first, so the repeated name resolves to it
+    wide = 0 if nocols else x.get("wide", 0)
+    if wide:
+        # extra columns interleaved: one before each regular column (so key columns sit in the middle, apart from each other),
+        # the rest at the end
+        witems = [("W", c) for c in range(wide)]
+        out = []
+        for it in items:
+            if witems:
+                out.append(witems.pop(0))
+            out.append(it)
+        items = out + witems
+
+    def col_of(it):
+        kind, c = it
+        if kind == "K":
+            return (kname(c), list(keys[c]))
+        if kind == "P":
+            return (pname(c), _payload(side, c, n))
+        return (f"{'w' if side == 0 else 'z'}{c}", _wide_payload(side, c, n))
+    cols = [col_of(it) for it in items]
+    payload = [col_of(it) for it in items if it[0] == "P"]
+    pos = lambda i: items.index(("K", i))
+
+    def vec_spec(i, named):
+        return dict({"vec": list(keys[i])}, **({"vname": named} if named is not None else {}))
+    if pm:
+        specs = []
+        for i in range(nk):
+            m = pm[i % len(pm)]
+            specs.append({"name": kname(i)} if m == 0 else {"col": pos(i)} if m == 1 else
+                         vec_spec(i, kname(i) if m == 3 else None))      # 2: unnamed copy of the stored key column, 3: a copy carrying its name
+    elif mode == 0:
         specs = [{"name": kname(i)} for i in range(nk)]
     elif mode == 1:
-        off = len(payload) if (var["after"] and naming != 2) else 0
-        specs = [{"col": off + i} for i in range(nk)]
+        specs = [{"col": pos(i)} for i in range(nk)]
     else:
         # an external key vector may carry the NAME of a stored column (a derived key such as t.k.fillna(0) keeps its source's
         # name): the join must go by the vector's values, not by the stored column of that name
         pnames = [nm for nm, _ in payload if isinstance(nm, str)]
-        specs = [dict({"vec": list(keys[i])}, **({"vname": pnames[i % len(pnames)]} if pnames and spec.get("v", 0) % 2 == 0 else {}))
-                 for i in range(nk)]
+        specs = [vec_spec(i, pnames[i % len(pnames)] if pnames and spec.get("v", 0) % 2 == 0 else None) for i in range(nk)]
     form = "list" if (nk != 1 or var["listform"]) else "single"
     return cols, {"form": form, "specs": specs}
+
+
+def _apply_klist(spec, sides):
+    """key LIST shapes: the key pairs listed in another order than the columns are stored (the same permutation on both sides),
+    and a key column listed twice (paired with the same or with another column of the other side: L.a == R.a and L.a == R.b)"""
+    kl = (spec.get("x") or {}).get("klist")
+    if not kl:
+        return
+    for side, (_cols, on) in enumerate(sides):
+        specs = on["specs"]
+        perm = kl.get("perm")
+        if perm and sorted(perm) == list(range(len(specs))):
+            specs = [specs[p] for p in perm]
+        for rep in kl.get("rep") or []:
+            j = rep[side]
+            if j < len(specs):
+                specs = specs + [dict(specs[j])]
+        on["specs"] = specs
+        if len(specs) != 1:
+            on["form"] = "list"
+
+
+def _self2_sides(spec):
+    """ONE table that holds both key-column sets (k0.. and r0..) plus payload, joined with itself on DIFFERENT key columns"""
+    var = _variant(spec.get("v", 0))
+    lk, rk = spec["lk"], spec["rk"]
+    n = len(lk[0]) if lk else 0
+    nk = len(lk)
+    npl = var["lp"]
+    payload = [(f"x{c}", _payload(0, c, n)) for c in range(npl)]
+    kcols = [(f"k{i}", list(lk[i])) for i in range(nk)]
+    rcols = [(f"r{i}", list(rk[i][:n]) + [None] * (n - len(rk[i]))) for i in range(nk)]
+    if var["after"]:
+        cols, koff, roff = payload + rcols + kcols, npl + nk, npl
+    else:
+        cols, koff, roff = kcols + payload + rcols, 0, nk + npl
+    mode = var["mode"]
+    form = "list" if (nk != 1 or var["listform"]) else "single"
+    lspecs = [{"name": f"k{i}"} if mode in (0, 3) else {"col": koff + i} for i in range(nk)]
+    rspecs = [{"name": f"r{i}"} if mode in (0, 2) else {"col": roff + i} for i in range(nk)]
+    return [(cols, {"form": form, "specs": lspecs}), (cols, {"form": form, "specs": rspecs})]
 
 
 def _apply_malformed(spec, sides):
@@ -168,16 +269,24 @@ def _apply_malformed(spec, sides):
     # float / complex / mismatched kinds are expressed through the key values themselves
 
 
+def _on_args(on, args):
+    return args[0] if on["form"] == "single" else list(args) if on["form"] == "list" else tuple(args)
+
+
 def expand(spec):
     """-> dict(L, R, lon, ron: python call arguments; cols/ons: descriptions)"""
     from serif import Vector, Table
-    sides = [_side(spec, 0), _side(spec, 1)]
+    selfmode = spec.get("self")
+    sides = _self2_sides(spec) if selfmode == 2 else [_side(spec, 0), _side(spec, 1)]
+    _apply_klist(spec, sides)
     _apply_malformed(spec, sides)
     tabs, ons, onvecs = [], [], []
-    for cols, on in sides:
+    for cols, on in (sides[:1] if selfmode == 2 else sides):
         vecs = [Vector([dec(x) for x in vals], name=nm) for nm, vals in cols]
         t = Table(vecs) if vecs else Table(())
         tabs.append(t)
+    if selfmode == 2:
+        tabs.append(tabs[0])
     for t, (cols, on) in zip(tabs, sides):
         args = []
         for s in on["specs"]:
@@ -190,15 +299,18 @@ def expand(spec):
             else:
                 args.append(0)
         onvecs.append(args)
-        if on["form"] == "single":
-            ons.append(args[0])
-        elif on["form"] == "list":
-            ons.append(list(args))
-        else:
-            ons.append(tuple(args))
-    if spec.get("self"):
+        ons.append(_on_args(on, args))
+    if selfmode == 2:
+        return {"L": tabs[0], "R": tabs[0], "lon": ons[0], "ron": ons[1], "sides": sides, "onvecs": onvecs}
+    if selfmode:
         # a table joined with itself on the very same key arguments (the same column objects on both sides)
         return {"L": tabs[0], "R": tabs[0], "lon": ons[0], "ron": ons[0], "sides": [sides[0], sides[0]], "onvecs": [onvecs[0], onvecs[0]]}
+    shared = (spec.get("x") or {}).get("shared")
+    if shared and len(tabs[0]) == len(tabs[1]) and all("vec" in a and "vec" in b and a == b for a, b in zip(sides[0][1]["specs"], sides[1][1]["specs"])) \
+            and len(sides[0][1]["specs"]) == len(sides[1][1]["specs"]) and sides[0][1]["form"] == sides[1][1]["form"]:
+        # two DIFFERENT tables keyed by the very same external key vector objects (shared == 2: even the same list object)
+        onvecs[1] = onvecs[0]
+        ons[1] = ons[0] if shared == 2 else _on_args(sides[1][1], onvecs[0])
     return {"L": tabs[0], "R": tabs[1], "lon": ons[0], "ron": ons[1], "sides": sides, "onvecs": onvecs}
 
 
@@ -269,7 +381,24 @@ def _warm(spec, x):
         getattr(L, warm.get("first_kind") and METHOD[warm["first_kind"]] or meth)(R, x["lon"], x["ron"], expect=warm.get("first_expect", spec["expect"]))
     except Exception:
         pass
-    for side, j, i, _old in warm["edits"]:
+    replaced = set()
+    if warm.get("replace"):
+        # the key column is REPLACED as a whole (`t.k0 = Vector(...)`: a new column object under the old name) instead of being
+        # edited cell by cell: whatever the first call remembered about the old column object is stale
+        from serif import Vector
+        for side, j, _i, _old in warm.get("edits") or []:
+            on = x["sides"][side][1]["specs"][j]
+            if (side, j) in replaced:
+                continue
+            if "name" not in on or not on["name"].isidentifier():
+                return "whole-column replacement needs a key given by a plain name"
+            with warnings.catch_warnings():
+                warnings.simplefilter("ignore")
+                setattr((L, R)[side], on["name"], Vector([dec(v) for v in spec[("lk", "rk")[side]][j]]))
+            replaced.add((side, j))
+    for side, j, i, _old in warm.get("edits") or []:
+        if (side, j) in replaced:
+            continue
         t = (L, R)[side]
         on = x["sides"][side][1]["specs"][j]
         if "name" in on:
@@ -285,6 +414,35 @@ def _warm(spec, x):
                 col[i] = final
             except Exception:
                 return "the in-place key edit was refused"
+    # payload cells edited in place between the two calls (whatever the first call kept of the cells is stale)
+    for side, pos, i, val in warm.get("pedits") or []:
+        t = (L, R)[side]
+        if pos < len(t.cols()) and i < len(t):
+            with warnings.catch_warnings():
+                warnings.simplefilter("ignore")
+                try:
+                    t.cols()[pos][i] = dec(val)
+                except Exception:
+                    return "the in-place payload edit was refused"
+    # columns renamed between the two calls: through a live column view (`.name = ...`) or with Table.rename_column; whatever
+    # the first call (or the table itself) remembered about names is stale.  `reon` then re-targets by-name key arguments.
+    for side, pos, newname in warm.get("renames") or []:
+        t = (L, R)[side]
+        if pos >= len(t.cols()):
+            continue
+        col = t.cols()[pos]
+        with warnings.catch_warnings():
+            warnings.simplefilter("ignore")
+            if warm.get("how") == "method" and isinstance(col.name, str):
+                t.rename_column(col.name, newname)
+            else:
+                col.name = newname
+    for side, j, newname in warm.get("reon") or []:
+        on = x["sides"][side][1]
+        if j < len(on["specs"]) and "name" in on["specs"][j]:
+            on["specs"][j]["name"] = newname
+            x["onvecs"][side][j] = newname
+            x[("lon", "ron")[side]] = _on_args(on, x["onvecs"][side])
 
 
 def _pre_edit(spec):
@@ -293,7 +451,7 @@ def _pre_edit(spec):
     if not warm:
         return spec
     pre = dict(spec, lk=[list(c) for c in spec["lk"]], rk=[list(c) for c in spec["rk"]])
-    for side, j, i, old in warm["edits"]:
+    for side, j, i, old in warm.get("edits") or []:
         pre[("lk", "rk")[side]][j][i] = old
     return pre
 
@@ -301,7 +459,7 @@ def _pre_edit(spec):
 def add_warm(rng, spec):
     """turn a (well-formed, non-empty) case into a warm case: one key cell per edit had another value of the same kind
     before the first call"""
-    if spec.get("mal"):
+    if spec.get("mal") or spec.get("x") or spec.get("self"):
         return spec
     side = rng.choice([0, 1, 1])
     cols = spec[("lk", "rk")[side]]
@@ -378,7 +536,9 @@ def execute(spec):
                 for a in (x["lon"], x["ron"])]
     before = (_snapshot(L), _snapshot(R), [_vsnap(a) for a in x["onvecs"][0] + x["onvecs"][1]], _args())
     meth = METHOD[spec["kind"]]
-    impl = {"out": _outcome(itn, lambda: getattr(L, meth)(R, x["lon"], x["ron"], expect=spec["expect"]))}
+    # a non-string expect argument travels as a placeholder string (invalid for the judge, as it must be for the code)
+    expect = EXPECT_OBJECTS.get(spec["expect"], spec["expect"]) if (spec.get("x") or {}).get("expect_obj") else spec["expect"]
+    impl = {"out": _outcome(itn, lambda: getattr(L, meth)(R, x["lon"], x["ron"], expect=expect))}
     if spec.get("mm") and spec["expect"] != "many_to_many":
         impl["mm"] = _outcome(itn, lambda: getattr(L, meth)(R, x["lon"], x["ron"], expect="many_to_many"))
     if spec.get("swap") and spec["kind"] == "full":
@@ -433,6 +593,15 @@ def histogram(spec, wire):
          f"rows:L{_size(len(lk))}xR{_size(len(rk))}", f"keycols:{len(spec['lk'])}",
          "keys-by:" + ["name", "own-vector", "external-vector", "name/vector"][var["mode"]],
          "outcome:" + ("err-" + out["err"] if "err" in out else "rows" + _size(len(out["cols"][0]) if out["cols"] else 0))]
+    xx = spec.get("x") or {}
+    for k in sorted(xx):
+        h.append("extra:" + k + (":" + str(xx[k]) if k in ("shared", "wide") else ""))
+    if spec.get("self"):
+        h.append("self-join:" + ("different-key-columns" if spec["self"] == 2 else "same-key-columns"))
+    if spec.get("warm"):
+        h.append("warm:" + "+".join(k for k in ("edits", "pedits", "renames", "replace") if spec["warm"].get(k)))
+    if max(len(lk), len(rk)) > 1000:
+        h.append("rows>1000")
     if spec.get("mal"):
         h.append("malformed:" + spec["mal"]["what"])
     if len(set(lk)) < len(lk):
@@ -453,12 +622,25 @@ def histogram(spec, wire):
 # ------------------------------------------------------------------------------------------------
 
 def shrink(spec):
+    xx = spec.get("x") or {}
+    paired = spec.get("self") or xx.get("shared")          # both sides must keep the same number of rows
+    if paired:
+        n = min(len(spec["lk"][0]) if spec["lk"] else 0, len(spec["rk"][0]) if spec["rk"] else 0)
+        for i in range(n):
+            yield dict(spec, lk=[c[:i] + c[i + 1:] for c in spec["lk"]], rk=[c[:i] + c[i + 1:] for c in spec["rk"]])
     for which in ("lk", "rk"):
         cols = spec[which]
         n = len(cols[0]) if cols else 0
-        for i in range(n):
+        for i in range(n if not paired else 0):
             yield dict(spec, **{which: [c[:i] + c[i + 1:] for c in cols]})
-    if len(spec["lk"]) > 1 and not spec.get("mal"):
+    for k in sorted(xx):
+        if k not in ("expect_obj",):
+            yield dict(spec, x={a: b for a, b in xx.items() if a != k})      # drop one extra presentation feature
+    if spec.get("warm"):
+        for k in ("pedits", "renames"):
+            if spec["warm"].get(k) and not (k == "renames" and spec["warm"].get("reon")):
+                yield dict(spec, warm={a: b for a, b in spec["warm"].items() if a != k})
+    if len(spec["lk"]) > 1 and not spec.get("mal") and not (xx.get("klist") or xx.get("modes") or xx.get("colperm")):
         for j in range(len(spec["lk"])):
             yield dict(spec, lk=spec["lk"][:j] + spec["lk"][j + 1:], rk=spec["rk"][:j] + spec["rk"][j + 1:])
     v = spec.get("v", 0)
@@ -481,14 +663,28 @@ def shrink(spec):
         yield dict(spec, swap=False)
 
 
+def _final_cell(spec, side, j, i):
+    return spec["_final"][side][j][i]
+
+
 def snippet(spec):
-    sides = [_side(spec, 0), _side(spec, 1)]
+    spec = dict(_pre_edit(spec), _final=[spec["lk"], spec["rk"]])
+    selfmode = spec.get("self")
+    sides = _self2_sides(spec) if selfmode == 2 else [_side(spec, 0), _side(spec, 1)]
+    _apply_klist(spec, sides)
     _apply_malformed(spec, sides)
-    lines = ["from serif import Table, Vector", "import datetime"]
+    lines = ["from serif import Table, Vector", "import datetime, decimal, fractions"]
     onsrc = []
     for nm, (cols, on) in zip("LR", sides):
+        if selfmode and nm == "R":
+            lines.append("R = L")
+            if selfmode != 2:
+                onsrc.append(onsrc[0])
+                break
+            nm, cols = "L", []
         vs = ", ".join(f"Vector([{', '.join(pyrepr(x) for x in vals)}], name={n!r})" for n, vals in cols)
-        lines.append(f"{nm} = Table([{vs}])" if cols else f"{nm} = Table(())")
+        if not (selfmode == 2 and not cols):
+            lines.append(f"{nm} = Table([{vs}])" if cols else f"{nm} = Table(())")
         args = []
         for s in on["specs"]:
             if "name" in s:
@@ -496,12 +692,40 @@ def snippet(spec):
             elif "col" in s:
                 args.append(f"{nm}.cols()[{s['col']}]")
             elif "vec" in s:
-                args.append(f"Vector([{', '.join(pyrepr(x) for x in s['vec'])}])")
+                args.append(f"Vector([{', '.join(pyrepr(x) for x in s['vec'])}]" + (f", name={s['vname']!r})" if s.get("vname") else ")"))
             else:
                 args.append("0")
         onsrc.append(args[0] if on["form"] == "single" else
                      "[" + ", ".join(args) + "]" if on["form"] == "list" else "(" + ", ".join(args) + ",)")
-    call = f"L.{METHOD[spec['kind']]}(R, {onsrc[0]}, {onsrc[1]}, expect={spec['expect']!r})"
+    xx = spec.get("x") or {}
+    if xx.get("shared") and onsrc[0] == onsrc[1]:
+        lines.append(f"keys = {onsrc[0]}      # the very same key vector objects for both tables")
+        onsrc = ["keys", "keys" if xx["shared"] == 2 or not onsrc[0].startswith("[") else "list(keys)"]
+    expect = repr(EXPECT_OBJECTS[spec["expect"]]) if xx.get("expect_obj") and spec["expect"] in EXPECT_OBJECTS else repr(spec["expect"])
+    warm = spec.get("warm")
+    if warm:
+        fk = METHOD[warm.get("first_kind") or spec["kind"]]
+        lines.append(f"try: L.{fk}(R, {onsrc[0]}, {onsrc[1]}, expect={warm.get('first_expect', spec['expect'])!r})      # an earlier join on the same objects")
+        lines.append("except Exception: pass")
+        for side, j, i, _old in warm.get("edits") or []:
+            on = sides[side][1]["specs"][j]
+            tgt = f"{'LR'[side]}[{on['name']!r}]" if "name" in on else f"{'LR'[side]}.cols()[{on['col']}]" if "col" in on else "<that key vector>"
+            if warm.get("replace") and "name" in on:
+                lines.append(f"{'LR'[side]}.{on['name']} = Vector([{', '.join(pyrepr(v) for v in spec['_final'][side][j])}])      # key column replaced")
+                continue
+            lines.append(f"{tgt}[{i}] = {pyrepr(_final_cell(spec, side, j, i))}      # in-place key edit")
+        for side, pos, i, val in warm.get("pedits") or []:
+            lines.append(f"{'LR'[side]}.cols()[{pos}][{i}] = {pyrepr(val)}      # in-place payload edit")
+        for side, pos, newname in warm.get("renames") or []:
+            lines.append(f"{'LR'[side]}.cols()[{pos}].name = {newname!r}" if warm.get("how") != "method" else
+                         f"{'LR'[side]}.rename_column({'LR'[side]}.cols()[{pos}].name, {newname!r})")
+        for side, j, newname in warm.get("reon") or []:
+            lines.append(f"# key argument {j} of the {'left' if side == 0 else 'right'} side is now the name {newname!r}")
+            if onsrc[side].startswith("'") or onsrc[side].startswith('"'):
+                onsrc[side] = repr(newname)
+            else:
+                onsrc[side] = onsrc[side].replace(repr(sides[side][1]["specs"][j].get("name")), repr(newname))
+    call = f"L.{METHOD[spec['kind']]}(R, {onsrc[0]}, {onsrc[1]}, expect={expect})"
     lines.append(f"r = {call}")
     lines.append("print(r.column_names(), [list(c) for c in r.cols()], [c.schema() for c in r.cols()])")
     if spec.get("swap"):
@@ -564,7 +788,7 @@ def random_keys(rng, nmax=40):
     lk, rk = [], []
     for _ in range(nk):
         for attempt in range(6):
-            kind = rng.choice(["int", "int", "str", "str", "bool", "date", "datetime", "boolint", "object", "intcollide", "intcollide", "numeq"])
+            kind = rng.choice(["int", "int", "str", "str", "bool", "date", "datetime", "boolint", "object", "intcollide", "intcollide", "numeq", "datemix"])
             pool = rng.sample(POOLS[kind], rng.randint(1, min(4 if kind != "numeq" else 6, len(POOLS[kind]))))
             if all(p is None for p in pool):
                 pool = pool + [next(p for p in POOLS[kind] if p is not None)]
@@ -610,6 +834,254 @@ def interleave(gens, block=64):
             if len(chunk) == block:
                 alive.append(g)
         gens = alive
+
+
+# ------------------------------------------------------------------------------------------------
+# further input shapes and states (gap analysis): key-list shapes, a table joined with itself on different columns, key vector
+# objects shared by two tables, renames / payload edits between two joins, sides beyond 1000 rows, wide tables, key names
+# that are no identifiers, tables without columns, expect arguments that are no strings
+# ------------------------------------------------------------------------------------------------
+
+def _vcode(lp=0, rp=0, mode=0, after=0, listform=0, naming=0):
+    return lp + 3 * rp + 9 * mode + 36 * after + 72 * listform + 144 * naming
+
+
+def _maker(prefix, mm, swap):
+    def mk(fam, kind, e, lk, rk, v, **kw):
+        spec = dict({"fam": prefix + "." + fam, "kind": kind, "expect": e, "lk": lk, "rk": rk, "v": v}, **kw)
+        if mm:
+            spec["mm"] = True
+        if swap and kind == "full":
+            spec["swap"] = True
+        return spec
+    return mk
+
+
+def _rand_cols(rng, pool, nk, n):
+    return [[rng.choice(pool) for _ in range(n)] for _ in range(nk)]
+
+
+def klist_cases(rng, mk, kinds, expects, count):
+    """key lists in another order than the stored columns, a key column listed twice, name / own-vector / external-copy forms mixed
+    inside one list, the right key columns stored in another order than the left ones"""
+    # every order of the key list x every storage order of the right key columns x by name / own vector / external vector
+    i = 0
+    for nk in (2, 3):
+        for perm in itertools.permutations(range(nk)):
+            for cp in itertools.permutations(range(nk)):
+                for mode in (0, 1, 2):
+                    for _ in range(2):
+                        i += 1
+                        lk, rk = _rand_cols(rng, [0, 1, 2], nk, rng.randint(2, 4)), _rand_cols(rng, [0, 1, 2], nk, rng.randint(2, 4))
+                        if rng.random() < 0.5:          # make some full matches likely
+                            rk[0][0:1], rk[1][0:1] = lk[0][0:1], lk[1][0:1]
+                            if nk == 3:
+                                rk[2][0:1] = lk[2][0:1]
+                        v = _vcode(lp=i % 3, rp=(i // 3) % 3, mode=mode, after=i % 2, listform=1, naming=(0, 1)[(i // 2) % 2])
+                        yield mk("klist", kinds[i % len(kinds)], expects[(i // len(kinds)) % len(expects)], lk, rk, v,
+                                 x={"klist": {"perm": list(perm)}, "colperm": [None, list(cp)] if i % 3 else [list(cp), None]})
+    for i in range(count):
+        nk = rng.choice([1, 2, 2, 2, 3])
+        pool = rng.choice([[0, 1], [0, 1, None], ["a", "b", None], [0, 1, 2]])
+        nl, nr = rng.randint(0, 4), rng.randint(0, 4)
+        lk, rk = _rand_cols(rng, pool, nk, nl), _rand_cols(rng, pool, nk, nr)
+        x = {}
+        feats = rng.sample(["perm", "rep", "modes", "colperm"], rng.randint(1, 2))
+        kl = {}
+        if "perm" in feats and nk > 1:
+            perm = list(range(nk))
+            while perm == list(range(nk)):
+                rng.shuffle(perm)
+            kl["perm"] = perm
+        if "rep" in feats or not (nk > 1):
+            kl["rep"] = [[rng.randrange(nk), rng.randrange(nk)] for _ in range(rng.choice([1, 1, 2]))]
+        if kl:
+            x["klist"] = kl
+        if "modes" in feats:
+            x["modes"] = [[rng.randrange(4) for _ in range(nk)], [rng.randrange(4) for _ in range(nk)]]
+        if "colperm" in feats and nk > 1:
+            cp = list(range(nk))
+            rng.shuffle(cp)
+            x["colperm"] = [None, cp] if rng.random() < 0.7 else [cp, None]
+        if not x:
+            x["klist"] = {"rep": [[0, 0]]}
+        yield mk("klist", kinds[i % len(kinds)], expects[(i // len(kinds)) % len(expects)], lk, rk, rng.randrange(NVARIANTS), x=x)
+
+
+def self2_cases(rng, mk, kinds, expects, full_n, count):
+    """one table joined with itself on DIFFERENT key columns: every pattern up to `full_n` rows over {1,2,None}, random beyond"""
+    i = 0
+    for n in range(full_n + 1):
+        for flat in itertools.product([1, 2, None], repeat=2 * n):
+            for kind in kinds:
+                for e in expects:
+                    i += 1
+                    yield mk("self2", kind, e, [list(flat[:n])], [list(flat[n:])], (i * 173 + 7) % NVARIANTS, self=2)
+    for _ in range(count):
+        n = rng.randint(full_n + 1, 6)
+        nk = rng.choice([1, 1, 2])
+        pool = rng.choice([[1, 2, None], [1, 2, 3, 4], ["a", "b", "c"]])
+        i += 1
+        yield mk("self2", kinds[i % len(kinds)], rng.choice(expects), _rand_cols(rng, pool, nk, n), _rand_cols(rng, pool, nk, n),
+                 rng.randrange(NVARIANTS), self=2)
+
+
+def shared_cases(rng, mk, kinds, expects, count):
+    """two different tables (different payload) keyed by the very same external key vector objects"""
+    i = 0
+    for n in (0, 1, 2, 3):
+        for ks in itertools.product([1, 2, None], repeat=n):
+            for kind in kinds:
+                for e in expects:
+                    i += 1
+                    v = _vcode(lp=i % 3, rp=(i // 3) % 3, mode=2, after=i % 2, listform=(i // 2) % 2, naming=(i // 5) % 4)
+                    yield mk("shared", kind, e, [list(ks)], [list(ks)], v, x={"shared": 1 + i % 2})
+    for _ in range(count):
+        n, nk = rng.randint(2, 7), rng.choice([1, 2])
+        cols = _rand_cols(rng, rng.choice([[1, 2, None], ["a", "b"], [1, 2, 3, 4, 5, 6, 7]]), nk, n)
+        i += 1
+        v = _vcode(lp=rng.randrange(3), rp=rng.randrange(3), mode=2, after=i % 2, listform=rng.randrange(2), naming=rng.randrange(4))
+        yield mk("shared", kinds[i % len(kinds)], rng.choice(expects), cols, [list(c) for c in cols], v, x={"shared": 1 + i % 2})
+
+
+def rename_cases(mk, kinds, expects):
+    """an earlier join by name, then columns renamed (through a live column view or with rename_column) or payload cells edited in
+    place, then the judged join: by the new name; by the old name (now missing: refused); by a name that now belongs to ANOTHER
+    column (names exchanged between the key and a payload column: that column's cells are the keys now)"""
+    i = 0
+    for after in (0, 1):
+        kpos, ppos = (1, 0) if after else (0, 1)
+        scenes = [
+            # (lk, rk, warm-extras)
+            ([1, 2, 3], [1, 1, 4], {"renames": [[1, kpos, "kk"]], "reon": [[1, 0, "kk"]]}),
+            ([1, 2, 3], [1, 1, 4], {"renames": [[1, kpos, "kk"]]}),
+            ([1, 1, 3], [1, 2, 4], {"renames": [[0, kpos, "Key 0"]], "reon": [[0, 0, "Key 0"]]}),
+            ([1, 1, 3], [1, 2, 4], {"renames": [[0, kpos, "kz"]]}),       # (not 'K0': the old name would still match case-insensitively)
+            ([200, 201, 5], [5, 5, 200], {"renames": [[1, kpos, "tmp"], [1, ppos, "k0"], [1, kpos, "y0"]]}),
+            ([7, 100, 7], [100, 7, 101], {"renames": [[0, kpos, "tmp"], [0, ppos, "k0"], [0, kpos, "x0"]]}),
+            ([200, 200, 5], [5, 6, 200], {"renames": [[1, kpos, "tmp"], [1, ppos, "k0"], [1, kpos, "y0"]], "edits": [[1, 0, 1, 5]]}),
+            ([1, 2, 3], [1, 1, 4], {"pedits": [[1, ppos, 0, 999], [0, ppos, 1, 998]]}),
+            ([1, 2, 3], [3, 2, 1], {"pedits": [[1, ppos, 2, None]], "renames": [[1, ppos, "pay"]]}),
+        ]
+        for lf in (0, 1):
+            v = _vcode(lp=1, rp=1, mode=0, after=after, listform=lf, naming=0)
+            for how in ("view", "method"):
+                for first_expect, first_kind in (("many_to_many", None), ("one_to_one", "inner"), ("many_to_one", "full")):
+                    for lk, rk, extra in scenes:
+                        for kind in kinds:
+                            i += 1
+                            e = expects[i % len(expects)]
+                            warm = dict({"first_expect": first_expect, "first_kind": first_kind, "how": how}, **extra)
+                            yield mk("rename", kind, e, [list(lk)], [list(rk)], v, warm=warm)
+
+
+def replace_cases(mk, kinds, expects):
+    """an earlier join by name, then the key column replaced as a whole by attribute assignment (a new column object under the
+    same name, duplicates created or removed, matches appearing), then the judged join"""
+    scenes = [([1, 2, 3], [1, 1, 4], [1, 0, 1, 2]), ([1, 2, 3], [1, 4, 4], [1, 0, 2, 5]), ([1, 2, 3], [1, 2, 4], [1, 0, 1, 1]),
+              ([1, 1, 3], [1, 2, 4], [0, 0, 1, 2]), ([1, 2, 3], [1, 2, 4], [0, 0, 1, 1]), ([1, 2, 3], [3, 2, 1], [1, 0, 0, 5])]
+    i = 0
+    for kind in kinds:
+        for first_expect, first_kind in (("many_to_many", None), ("one_to_one", None), ("many_to_one", "inner" if kind != "inner" else "left")):
+            for lk, rk, edit in scenes:
+                for e in expects:
+                    i += 1
+                    v = _vcode(lp=i % 3, rp=(i // 3) % 3, mode=0, after=i % 2, listform=(i // 2) % 2, naming=0)
+                    yield mk("replace", kind, e, [list(lk)], [list(rk)], v,
+                             warm={"edits": [list(edit)], "first_expect": first_expect, "first_kind": first_kind, "replace": True})
+
+
+# pairs of column names that read alike: canonically equivalent spellings (NFC / NFD), a trailing blank, case, blank vs underscore,
+# Latin vs Cyrillic 'a', no-break space; each is looked up by exactly its own spelling
+LOOKALIKE = [("\u00e9", "e\u0301"), ("k0", "k0 "), ("key", "Key"), ("a b", "a_b"), ("a", "\u0430"), ("a b", "a\u00a0b"), ("k", " k")]
+
+
+def big_cases(rng, mk, kinds, expects, all_expects=False):
+    """sides beyond 1000 rows (size-triggered strategies): mostly unique keys, a few None, and a duplicate far down the column
+    (beyond row 1024) on one side only - its partner above or below the 1024 mark"""
+    i = 0
+    for nl, nr, dup, heavy in ((1030, 4, "left", False), (4, 1030, "right", False), (1040, 6, "left-far", False), (6, 1040, "right-far", False),
+                               (1030, 7, "none", False), (4, 1042, "bucket-right", False), (1042, 3, "bucket-left", False), (1030, 1030, "none", True), (1030, 1030, "left", True), (1030, 1030, "right", True)):
+        lk = [(j * 7) % 2311 for j in range(nl)]
+        rk = [(j * 11 + 3) % 2311 for j in range(nr)]
+        if dup == "left":
+            lk[1028] = lk[3]
+        if dup == "right":
+            rk[1029] = rk[2]
+        if dup == "left-far":
+            lk[1037] = lk[1026]
+        if dup == "right-far":
+            rk[1038] = rk[1025]
+        if nl > 5:
+            lk[5] = None
+        if nr > 3:
+            rk[3] = None
+        if dup == "bucket-right":            # one key with more than 1000 partners on the right / on the left
+            lk, rk = [5, 6, 5, None], [5] * 1040 + [None, 6]
+        if dup == "bucket-left":
+            lk, rk = [5] * 1040 + [None, 6], [6, 5, None]
+        for kind in kinds:
+            for e in (expects if (all_expects and not heavy) else [None]):
+                i += 1
+                if e is None and dup.startswith("bucket") and "many_to_many" in expects:
+                    e = "many_to_many"          # the long bucket must be emitted, not refused
+                yield mk("big", kind, e or expects[i % len(expects)], [lk], [rk], rng.randrange(NVARIANTS))
+
+
+def shape_cases(rng, mk, kinds, expects, count):
+    """wide tables with the key columns in the middle, key columns whose names are no identifiers (given by exactly that name),
+    zero-row sides that have no column at all"""
+    for i in range(count):
+        nk = rng.choice([1, 2, 2])
+        kind = rng.choice(["int", "str", "bool", "date", "datemix", "object"])
+        pool = rng.sample(POOLS[kind], min(3, len(POOLS[kind])))
+        if all(p is None for p in pool):
+            pool.append(next(p for p in POOLS[kind] if p is not None))
+        nl, nr = rng.randint(0, 5), rng.randint(0, 5)
+        x = {}
+        feats = rng.sample(["wide", "names", "nocols"], rng.randint(1, 2))
+        v = rng.randrange(NVARIANTS)
+        if "wide" in feats:
+            x["wide"] = rng.choice([1, 2, 3, 5, 8])
+        if "names" in feats:
+            names = rng.sample(FANCY_NAMES, 2 * nk)
+            x["names"] = dict([(f"k{j}", names[j]) for j in range(nk)] + [(f"r{j}", names[nk + j]) for j in range(nk)])
+            if nk == 2 and rng.random() < 0.6:
+                a, b = rng.choice(LOOKALIKE)
+                x["names"] = {"k0": a, "k1": b, "r0": b, "r1": a}
+        if "nocols" in feats:
+            sides = rng.choice([[0], [1], [0, 1]])
+            x["nocols"] = sides
+            if 0 in sides:
+                nl = 0
+            if 1 in sides:
+                nr = 0
+            var = _variant(v)
+            v = v - var["mode"] * 9 + 2 * 9          # keys outside the tables
+        lk, rk = _rand_cols(rng, pool, nk, nl), _rand_cols(rng, pool, nk, nr)
+        yield mk("shape", kinds[i % len(kinds)], expects[(i // len(kinds)) % len(expects)], lk, rk, v, x=x)
+
+
+def expect_object_cases(rng, mk, kinds):
+    """expect arguments that are not strings (None, 0, 1, True, bytes, a tuple / list holding a valid value, a float): rejected"""
+    i = 0
+    for kind in kinds:
+        for eo in EXPECT_OBJECTS:
+            for lk, rk in (([], []), ([1], [1]), ([1, 2], [2, 3]), ([1, 1], [1, 1]), ([], [1, 1]), ([1, 1], [])):
+                i += 1
+                yield mk("expectobj", kind, eo, [list(lk)], [list(rk)], (i * 173 + 7) % NVARIANTS, x={"expect_obj": True})
+
+
+def extra_cases(rng, prefix, kinds, expects, mm=False, swap=False, scale=1, expect_objects=False):
+    mk = _maker(prefix, mm, swap)
+    kinds, expects = list(kinds), list(expects)
+    gens = [klist_cases(rng, mk, kinds, expects, 700 * scale), self2_cases(rng, mk, kinds, expects, 2, 250 * scale),
+            shared_cases(rng, mk, kinds, expects, 150 * scale), rename_cases(mk, kinds, expects), replace_cases(mk, kinds, expects),
+            shape_cases(rng, mk, kinds, expects, 700 * scale), big_cases(rng, mk, kinds, expects, all_expects=mm)]
+    if expect_objects:
+        gens.append(expect_object_cases(rng, mk, kinds))
+    for g in gens:
+        yield from g
 
 
 MALFORMED = ["missing", "wronglen", "shortlen", "emptylist", "bothempty", "unequal", "tuple", "badspec",
